@@ -308,6 +308,19 @@ def configs(tier, seed):
                                                           {"node": big, "named": False}]}})
     out.append({"root": "wb", "dw": 32, "gran": 8, "aw": 10, "align": 0,
                 "wins": [{"k": "csr", "tree": big, "named": True}, {"k": "sram", "size": 16, "writable": True, "named": False}]})
+    # a CSR space SMALLER than one Wishbone word behind a bridge (refused on the pinned tree: it must stay refused, or
+    # the bytes of the word that no register occupies must stay unassigned AND silent)
+    for dw_, leaf in ((32, {"k": "evmon", "align": 0, "trg": ["rise", "level"]}), (16, {"k": "bridge", "aw": 1, "widths": [8]}),
+                      (32, {"k": "bridge", "aw": 1, "widths": [8, 8]})):
+        cfg = {"root": "wb", "dw": dw_, "gran": 8, "aw": 4, "align": 0,
+               "wins": [{"k": "csr", "tree": leaf, "named": True}, {"k": "sram", "size": 8, "writable": True, "named": False}]}
+        try:
+            top, bus, stubs, srams = _build(cfg)
+            from amaranth.hdl import Fragment
+            Fragment.get(top, None)
+            out.append(cfg)
+        except ValueError:
+            pass
     for ov in (0, 1):
         cfg = {"root": "csr", "dw": 8, "tree": {"k": "dec", "aw": 6, "align": 0,
                                                 "wins": [{"node": dict(d4, ov=ov), "named": True},
